@@ -351,8 +351,29 @@ class CallGraph:
         if isinstance(tgt, ModuleRef):
             return [], 'module'
         if isinstance(tgt, ValueRef):
+            inner = self._partial_target(tgt)
+            if inner is not None:
+                return self._from_target(fi, inner, name)[0], 'partial'
             return self.dynamic_ctor(fi), 'value'
         return None, 'unresolved'
+
+    def _partial_target(self, vref):
+        """A module-level `name = functools.partial(f, ...)`: calling the name calls f."""
+        if not vref.exprs:
+            return None
+        e = vref.exprs[-1]
+        if not (isinstance(e, ast.Call) and e.args):
+            return None
+        try:
+            head = self.model.resolve_expr(vref.modname, e.func)
+        except Exception:
+            return None
+        if not (isinstance(head, ExternalRef) and head.dotted == 'functools.partial'):
+            return None
+        try:
+            return self.model.resolve_expr(vref.modname, e.args[0])
+        except Exception:
+            return None
 
     def dynamic_ctor(self, fi):
         """Classes a dynamic constructor call (token_type(result), self.cls(match), fallback_token(s))
